@@ -113,7 +113,7 @@ CHECKS["C03"] = {
             "of 1.5M/12M tuples would be passed) from {every true node hash, one fresh value}, given to Verify and Pollard.Verify. Generated (rapid): states of "
             "up to 48 (thorough 300) leaves; an honest proof put through 1-3 structured mutations or a free tuple, given to Verify, Pollard.Verify, "
             "MapPollard.Verify, VerifyPartialProof (all proof hashes, and only the missing ones) and Verify on the forest embedded under a stump of up to "
-            "2^62 leaves. Oracle: accepted => every (non-zero) hash equals the model's node hash at its claimed position. Non-trivial: not an honest "
+            "2^62 leaves, and last to the REMEMBERING entry points (Pollard.Verify, MapPollard.Verify and VerifyPartialProof with remember=true); in a third of the cases the forests first take a detour (one more block, an honest Verify, Undo back) so that the claim meets long-lived forests. Oracle: accepted => every (non-zero) hash equals the model's node hash at its claimed position. Non-trivial: not an honest "
             "(distinct live leaves, canonical proof) tuple, as many hashes as targets, all targets <= maxPos.",
     "assumptions": COMMON_ASSUME + ["claims with an all-zero target hash are outside the property's hypothesis ('a list of non-zero hashes') and are skipped, counted",
                                     "a map forest's verifier is also allowed to read a target as a position of its own TotalRows layout",
@@ -157,8 +157,8 @@ CHECKS["C06"] = {
     "thorough": {"shards": 16, "checks": 4000},
     "rule": "rapid-generated sequences of block / undo (depth 1 or a random depth up to the whole history) / redo-the-undone-block steps, new blocks after an "
             "undo use leaves with different hashes (branch salt); run on Pollard, a full MapPollard and a partial MapPollard (generated TotalRows; partial "
-            "forests Verify(remember) a block's deletions first). Undo gets (numAdds, the block's proof, its deleted hashes, the previous roots) as fresh "
-            "copies. Oracles: (1) after every step each instance equals the reference model (roots, count, every live leaf's position, not-found for every "
+            "forests Verify(remember) a block's deletions first). Undo gets (numAdds, the block's proof, its deleted hashes, the previous roots) from the instance's recycled argument buffers; every other undo hands a FULL map forest a record carrying the targets only (it rebuilds the proof hashes itself). "
+            " Oracles: (1) after every step each instance equals the reference model (roots, count, every live leaf's position, not-found for every "
             "deleted or undone leaf, GetHash of every existing node, canonical proofs of 6 probe subsets, tracked-leaf count); (2) after each undo the "
             "instance equals the snapshot taken right before the undone block (positions of every hash ever added, GetHash at every position <= maxPos, "
             "byte-identical proofs); (3) at the end it equals a fresh replica that only saw the surviving blocks. Non-trivial: contains an undo of a block "
@@ -182,7 +182,7 @@ CHECKS["C07"] = {
             "random / last-plus-random (ascending []uint32, as callers pass it); the light client starts with an empty proof and calls Proof.Update with the block's "
             "targets, added hashes, remember indexes and the returned UpdateData. After every block: held leaves == (previous minus deleted) plus remembered adds "
             "(both directions), each paired with the model's position, proof hashes == model canonical proof, Verify accepts, and the proof equals Pollard.Prove "
-            "for the same leaves. Non-trivial: contains a block with a non-empty cache before and after in which a cached leaf changes position or a leaf is "
+            "for the same leaves. The block data is laid out differently from block to block (exact copies / nil for empty lists / deletions and additions as halves of one array) and Proof.Update gets the very slices Stump.Update saw; a SECOND wallet remembering exactly the other additions is updated right after the first from the same slices and the same UpdateData value (every other block one rebuilt from its exported fields) and judged the same way. Non-trivial: contains a block with a non-empty cache before and after in which a cached leaf changes position or a leaf is "
             "remembered. Counted: remembered last leaf, remembered leaf that is a lone root, remembering in a block that overwrites an empty root. In 2 of 3 cases a second stump / light client follows the SAME forest embedded behind 2^k (+2^j) opaque leaves, k up to 62 (layouts of up to 63 rows): positions are shifted by the independent geometry and everything is checked again there. Deterministic scale probes: the C01 scale history with a sparse remembered set on 2^9 and 2^12 leaves (thorough up to 2^14), also embedded behind 2^40 opaque leaves.",
     "assumptions": COMMON_ASSUME,
 }
@@ -336,7 +336,7 @@ CHECKS["C15"] = {
     "rule": "block histories as in C01 (all deletion / addition shapes) replayed on the reference model only; every block's summary is (the model's canonical targets of the "
             "deleted leaves in request order, as a prover emits them; the addition count). A CachingScheduleTracker is fed the summaries and asked for every memory limit "
             "(one of 1..3, one uniform in 1..total additions, and always total+0..5 or 2^20) - per case either a fresh tracker per limit, or ONE tracker asked for all limits "
-            "in turn, or ONE tracker asked after up to three prefixes of the history and at the end (each answer judged against the blocks recorded so far) - and GenerateCachingSchedule is checked against the model's "
+            "in turn, or ONE tracker asked after up to three prefixes of the history and at the end (each answer judged against the blocks recorded so far), or ONE tracker reorganised by value copy (before drawn blocks the caller copies the tracker value, records a stale tip - another valid block on the same state - and goes back to the copy); every block summary is handed over in one recycled buffer - and GenerateCachingSchedule is checked against the model's "
             "creation / deletion block of every slot: one list per block; strictly ascending; every entry is a slot added by that block and deleted by a later block; "
             "for every block the number of scheduled slots alive there is <= the limit; with a limit >= all leaves ever added every slot with a recorded deletion is "
             "scheduled. Non-trivial: some block empties a tree and adds in the same block, or a limit forced an eviction decision (fewer scheduled than spendable).",
